@@ -63,7 +63,7 @@ class Ctx:
     def unreachable(self):
         return self.block([], dict(self.meta, k="unreachable"))
 
-    def splice(self, cpath, env_local, params, result, cont, pre=()):
+    def splice(self, cpath, env_local, params, result, cont, pre=(), env_as_is=False):
         """copy of closure body `cpath` appended to the blocks; returns its entry block.  env_local: local holding the
         closure value; params: operands for the closure's declared parameters; result: place that receives the returned
         value; cont: block to continue at; pre: statements to run first"""
@@ -78,7 +78,9 @@ class Ctx:
         cfile = file_of(craw)
         envty = craw["locals"][1]["ty"]
         envp = {"local": env_local, "proj": [], "ty": ""}
-        if envty.startswith("&mut "):
+        if env_as_is:
+            erv = {"k": "use", "op": {"k": "move", "place": envp}}
+        elif envty.startswith("&mut "):
             erv = {"k": "ref", "mut": True, "place": envp}
         elif envty.startswith("&"):
             erv = {"k": "ref", "mut": False, "place": envp}
@@ -166,6 +168,31 @@ def rewrite_call(raw, raws, bi):
                                                         "variants": variants})]
         blk["term"] = dict(meta, k="switch", op=mv(d, "isize"), targets=[[0, arms[0]], [1, arms[1]]], otherwise=cx.unreachable(), op_ty="isize")
 
+    # a local closure invoked directly: `let admit = |v| {..}; admit(x)`
+    if c.get("kind") == "Closure" and decl in ("std::ops::FnMut::call_mut", "std::ops::Fn::call", "std::ops::FnOnce::call_once") and \
+            len(args) == 2 and c.get("path") in raws and c.get("path") != raw.get("path"):
+        cpath = c["path"]
+        craw = raws[cpath]
+        E = plain_local(args[0])
+        T = plain_local(args[1])
+        if E is None or T is None or craw.get("kind") != "Closure":
+            return False
+        # do not splice a closure into itself / into one of its own callees' bodies (recursion through a closure)
+        if cpath in raw.get("inlined_closures", []) and raw.get("kind") == "Closure":
+            return False
+        np = craw.get("arg_count", 1) - 1
+        envty = craw["locals"][1]["ty"]
+        aty = raw["locals"][E]["ty"] if E < len(raw["locals"]) else ""
+        # the operand is `&mut closure` / `&closure` for call_mut / call and the closure itself for call_once
+        as_is = (envty.startswith("&") and aty.startswith("&")) or (not envty.startswith("&") and not aty.startswith("&"))
+        if not as_is and not (envty.startswith("&") and not aty.startswith("&")):
+            return False
+        params = [{"k": "move", "place": {"local": T, "proj": [{"k": "field", "owner": "(tuple)", "name": str(i), "idx": i,
+                                                                   "ty": craw["locals"][2 + i]["ty"]}], "ty": craw["locals"][2 + i]["ty"]}}
+                  for i in range(np)]
+        S = cx.splice(cpath, E, params, D, target, env_as_is=as_is)
+        blk["term"] = cx.goto(S)
+        return True
     is_opt = decl.startswith(OPT)
     is_res = decl.startswith(RES)
     if (is_opt or is_res) and args:
